@@ -123,27 +123,9 @@ func (m *Modifier) ModifyResponse(res *http.Response) error {
 	sranges := strings.Split(strings.TrimLeft(rh, "bytes="), ",")
 	var ranges [][]int
 	for _, rng := range sranges {
-		if strings.HasSuffix(rng, "-") {
-			rng = fmt.Sprintf("%s%d", rng, len(m.body)-1)
-		}
-
-		rs := strings.Split(rng, "-")
-		if len(rs) != 2 {
-			res.StatusCode = http.StatusRequestedRangeNotSatisfiable
-			return nil
-		}
-		start, err := strconv.Atoi(strings.TrimSpace(rs[0]))
-		if err != nil {
-			return err
-		}
-
-		end, err := strconv.Atoi(strings.TrimSpace(rs[1]))
-		if err != nil {
-			return err
-		}
-
-		if start > end {
-			res.StatusCode = http.StatusRequestedRangeNotSatisfiable
+		start, end, ok := resolveRange(rng, len(m.body))
+		if !ok {
+			rangeNotSatisfiable(res, len(m.body))
 			return nil
 		}
 
@@ -194,6 +176,56 @@ func (m *Modifier) ModifyResponse(res *http.Response) error {
 	res.Header.Set("Content-Type", fmt.Sprintf("multipart/byteranges; boundary=%s", m.boundary))
 
 	return nil
+}
+
+// resolveRange resolves one byte-range-spec of a Range header against content
+// of size bytes, with the rules of RFC 7233 section 2.1 (the ones
+// net/http.ServeContent applies): "first-last" with last clamped to the final
+// byte, "first-" up to the final byte, and the suffix form "-n" for the last n
+// bytes. ok is false when the spec is malformed or selects no byte of the
+// content; otherwise 0 <= start <= end < size.
+func resolveRange(spec string, size int) (start, end int, ok bool) {
+	rs := strings.Split(spec, "-")
+	if len(rs) != 2 {
+		return 0, 0, false
+	}
+	first, last := strings.TrimSpace(rs[0]), strings.TrimSpace(rs[1])
+
+	if first == "" {
+		n, err := strconv.Atoi(last)
+		if err != nil || n <= 0 || size == 0 {
+			return 0, 0, false
+		}
+		if n > size {
+			n = size
+		}
+		return size - n, size - 1, true
+	}
+
+	start, err := strconv.Atoi(first)
+	if err != nil || start < 0 || start >= size {
+		return 0, 0, false
+	}
+	if last == "" {
+		return start, size - 1, true
+	}
+
+	end, err = strconv.Atoi(last)
+	if err != nil || start > end {
+		return 0, 0, false
+	}
+	if end >= size {
+		end = size - 1
+	}
+	return start, end, true
+}
+
+// rangeNotSatisfiable turns res into a 416 for content of size bytes.
+func rangeNotSatisfiable(res *http.Response, size int) {
+	res.StatusCode = http.StatusRequestedRangeNotSatisfiable
+	res.Header.Set("Content-Range", fmt.Sprintf("bytes */%d", size))
+	res.ContentLength = 0
+	res.Body = http.NoBody
 }
 
 // randomBoundary generates a 30 character string for boundaries for mulipart range
